@@ -10,7 +10,11 @@ THEOREMS = ['C12.python_pattern_operations_are_the_model', 'C12.peq_is_expansion
             'C12.evar_is_free_transparent', 'C12.metavars_transparent', 'C12.instantiate_transparent',
             'C12.esubst_transparent', 'C12.ssubst_transparent', 'C12.simplify_transparent', 'C12.instantiate_compose',
             'C12.notation_text_is_the_model', 'C12.notation_text_evar_is_free', 'C12.notation_text_distinct_keys',
-            'C12.notation_text_transparent']
+            'C12.notation_text_transparent',
+            # total correctness (Props/C12b.lean, NotationTotal.lean): == and every notation operation terminate, explicit fuel bound ht a + ht b - 1;
+            # fuel = recursion depth exactly (peqDepth); the translated Instantiate text is total as well
+            'C12.peqF_total', 'C12.eq_decides_expansion_equality', 'C12.eq_recursion_depth', 'C12.eq_is_equivalence', 'C12.operations_total',
+            'C12.operations_total_correct', 'C12.notation_text_eq_total', 'C12.notation_text_operations_total']
 
 
 def dormant_redundant_subst(p):
@@ -86,7 +90,7 @@ def constraint_violating_instantiation(b):
 
 def run(rep):
     rng = random.Random(rep.seed * 1000003 + 12)
-    ok, detail = core.proof_gate(rep, 'Pi2.Props.C12', THEOREMS)
+    ok, detail = core.proof_gate(rep, 'Pi2.Props.C12b', THEOREMS)
     quick = rep.tier == 'quick'
     N = 1500 if quick else 25000
     lines = []
